@@ -88,7 +88,11 @@ def monitor_c02(sc, obs):
             for d, e in devs.items():
                 if e['kind'] == 5:
                     n = ents[d].get('gen_batch', 0)
-                    generated += e['generated'] * (n if n > 0 else 1)
+                    pat = ents[d].get('gen_pattern')
+                    if pat:      # single parts (0), batches of n parts, empty batches (-1), cyclically
+                        generated += sum((1 if pat[k % len(pat)] == 0 else max(pat[k % len(pat)], 0)) for k in range(e['generated']))
+                    else:
+                        generated += e['generated'] * (n if n > 0 else 1)
             sunk = sum(e['received'] for e in devs.values() if e['kind'] == 6)
             if generated != len(inside) + sunk + len(lost):
                 _bad(v, 'C02/census', 'op %d %s (t=%d): %d parts generated but %d inside devices + %d received by sinks + %d reported lost' % (
@@ -337,7 +341,7 @@ def monitor_c08(sc, obs):
     if any(x[0] == 'now' and x[1][0] == 'rewire' for x in sc['ext']) or any(u[0] == 'rewire' for ops in sc['uops'] for u in ops):
         return v      # the configured connections change during the run: the history checks below read the final layout only
     kinds = {d: e['kind'] for d, e in ents.items()}
-    has_batches = any(e['kind'] == 'batcher' or e.get('gen_batch', 0) > 0 for e in sc['entities'])
+    has_batches = any(e['kind'] == 'batcher' or e.get('gen_batch', 0) > 0 or any(z != 0 for z in e.get('gen_pattern', [])) for e in sc['entities'])
     gouts_of = {}
     for gid, g in groups.items():
         gouts_of[gid] = g
@@ -519,7 +523,7 @@ def monitor_c15(sc, obs):
     last_level, last_pool = {}, {}
     counts = Counter()
     fails = Counter()
-    has_batches = any(e['kind'] == 'batcher' or e.get('gen_batch', 0) > 0 for e in sc['entities'])
+    has_batches = any(e['kind'] == 'batcher' or e.get('gen_batch', 0) > 0 or any(z != 0 for z in e.get('gen_pattern', [])) for e in sc['entities'])
     for i, o in enumerate(obs):
         for r in o['data']:
             if r[0] == 9:
